@@ -1838,6 +1838,74 @@ def c15_cli(seed, tier):
                 R.fail("server-behaviour-%s" % cls, "bita clone with server script %r :: %s" % (script, se.decode(errors="replace")[-160:].replace("\n", "|")))
             elif cls == "ok" and read_file(outp) != base_src:
                 R.fail("server-behaviour-wrong-output", "script %r" % (script,))
+        # decompression bombs: a stored chunk of a few hundred bytes that expands far beyond the source size
+        # declared for it (the dictionary is consistent otherwise and the header checksum is valid).  Memory
+        # must follow the declared chunk size, not what the compressed stream chooses to produce.
+        def peak_rss_mb(argv):
+            """run a command, return (class, peak resident set of that process in MiB)"""
+            pr = subprocess.Popen(["/usr/bin/time", "-f", "maxrss_kb=%M", "--", bita()] + argv, stdout=subprocess.PIPE,
+                                  stderr=subprocess.PIPE, env=dict(os.environ, RUST_BACKTRACE="0"))
+            try:
+                so, se = pr.communicate(timeout=300)
+            except subprocess.TimeoutExpired:
+                pr.kill()
+                return "hang", 0
+            mm = re.search(rb"maxrss_kb=(\d+)", se)
+            # /usr/bin/time passes the child's status on; a signal shows as 128+n or "Command terminated by signal"
+            cls_ = "ok" if pr.returncode == 0 else "abort" if (b"terminated by signal" in se or pr.returncode >= 128) else \
+                "panic" if pr.returncode == 101 else "err"
+            return cls_, (int(mm.group(1)) // 1024 if mm else 0)
+        bomb_mb = 192 if tier == "thorough" else 96
+        zeros = W.fresh(".zeros")
+        with open(zeros, "wb") as f:
+            f.write(bytes(bomb_mb << 20))
+        outb = W.fresh(".bomb0.cba")
+        cls0, rc0, so0, se0 = run_bita(["compress", "-i", zeros, "--fixed-size", str(bomb_mb << 20), "--compression", "brotli",
+                                        "--compression-level", "5", outb], timeout=600)
+        os.unlink(zeros)
+        if cls0 == "ok":
+            bdata = read_file(outb)
+            ba = pyfmt.parse_archive(bdata)
+            for declared in (1000, 70000):
+                bd = pyfmt.decode_dictionary(ba["dict_bytes"])
+                bd["chunk_descriptors"][0]["source_size"] = declared
+                bd["source_total_size"] = declared
+                crafted = pyfmt.build_header(pyfmt.encode_dictionary(bd)) + bdata[ba["header_size"]:]
+                cp = W.write(crafted, ".bomb.cba")
+                for what, argv in (("clone", ["clone", "--force-create", cp, W.fresh(".bomb.out")]),
+                                   ("clone --verify-output", ["clone", "--force-create", "--verify-output", cp, W.fresh(".bomb.out")])):
+                    cls_b, rss = peak_rss_mb(argv)
+                    R.stat("decompression_bombs")
+                    req = "bita %s of a %d byte archive: one chunk declared as %d bytes whose %d stored bytes expand to %d MiB" % (
+                        what, len(crafted), declared, ba["dictionary"]["chunk_descriptors"][0]["archive_size"], bomb_mb)
+                    if cls_b not in ("ok", "err"):
+                        R.fail("crafted-archive-%s" % cls_b, req)
+                    if rss > bomb_mb // 2:
+                        R.fail("memory-follows-the-compressed-stream-not-the-declared-chunk-size", req + " :: peak resident set %d MiB" % rss)
+        else:
+            R.note("could not build the decompression bomb: compress %s" % cls0)
+        # the same lie at a size the model can replay: 3000 zero bytes stored as a brotli stream, declared
+        # smaller (refused: the output limit), exactly, and larger (accepted: the hash decides)
+        small_src = bytes(3000)
+        c1, sarch, se1, spath = compress_cli(W, small_src, ["--fixed-size", "3000"], 16, "brotli", 5, 1)
+        if c1 == "ok" and sarch:
+            sa = pyfmt.parse_archive(sarch)
+            stored0 = sarch[sa["header_size"]:]
+            for declared in (100, 2999, 3000, 3001, 5000):
+                sd = pyfmt.decode_dictionary(sa["dict_bytes"])
+                sd["chunk_descriptors"][0]["source_size"] = declared
+                sd["source_total_size"] = declared
+                crafted = pyfmt.build_header(pyfmt.encode_dictionary(sd)) + stored0
+                cp = W.write(crafted, ".sbomb.cba")
+                outp = W.fresh(".sbomb.out")
+                cls_s, rc_s, so_s, se_s = clone_cli(W, cp, outp)
+                got_s = read_file(outp)
+                R.stat("declared_size_lies_replayed_by_the_model")
+                if cls_s not in ("ok", "err"):
+                    R.fail("crafted-archive-%s" % cls_s, "bita clone: chunk of 3000 zeros declared as %d bytes" % declared)
+                mreq = "clone-ro - - %s - - %s:%s" % (hx(crafted), hx(stored0), hx(small_src))
+                R.case(mreq, None)
+                R.cases[-1] = (mreq, "result=%s out=%s" % (cls_s if cls_s in ("ok", "panic") else "err", digest(got_s or b"")))
         # a server that keeps sending: the client must not consume (buffer) data without bound
         for script in ([("flood", 96 << 20)], ["full", ("flood", 96 << 20)], ["full", "full", ("flood", 96 << 20)]):
             srv = httpd.Server(arch, script=list(script))
